@@ -346,6 +346,8 @@ def cmd_check(prop, tier):
                     agg['probes'][k] = agg['probes'].get(k, 0) + v
             agg['steps'] += rep['steps']; agg['accesses'] += rep['accesses']; agg['events'] += rep['events']
             job_wall += rep['wall']
+            if rep['wall'] > agg.get('slowest', (0, -1))[0]:
+                agg['slowest'] = (round(rep['wall'], 1), rep['i'])
             for k, v in (rep.get('extra') or {}).items():
                 if isinstance(v, dict):
                     d = agg['extra'].setdefault(k, {})
@@ -468,7 +470,7 @@ def cmd_check(prop, tier):
             'scheduler_steps': agg['steps'], 'instrumented_accesses': agg['accesses'], 'hook_events': agg['events'],
             'probes_and_fault_counts_fired': dict(sorted(agg['probes'].items())),
             'extra': agg['extra'],
-            'builds': {k: os.path.basename(os.path.dirname(v)) for k, v in bins.items()},
+            'builds': {k: os.path.basename(os.path.dirname(v if isinstance(v, str) else v[-1])) + ('' if isinstance(v, str) else ' under valgrind memcheck') for k, v in bins.items()},
             'real_vs_stub': {'kalign lib/src + src (readers, writers, guide tree, DP kernels, CLI)': 'real, compiled from /repo working tree',
                              'glibc stdio/qsort/getopt': 'real', 'OpenMP runtime': 'stub (simomp, seeded fibers)' if 'plain' in bins or 'preempt' in bins or 'asan' in bins else 'not linked (sequential elision)',
                              'file system/stdin/stdout/tty/exit': 'stub (simfs over fopencookie)', 'clock': 'stub (simclock)',
@@ -486,6 +488,7 @@ def cmd_check(prop, tier):
     os.makedirs(os.path.join(VERIF, 'evidence'), exist_ok=True)
     with open(os.path.join(VERIF, 'evidence', prop + '.json'), 'w') as f:
         json.dump(ev, f, indent=1, sort_keys=False)
+    print('slowest job: %s' % (agg.get('slowest'),))
     print('%s %s: %d jobs, %d simulated runs, %d distinct non-trivial, %d violations reported, known findings matched: %d, build %.1fs, jobs %.1fs, total %.1fs'
           % (prop, tier, agg['jobs'], agg['runs'], len(agg['keys']), len(reported), sum(known_hits.values()), t_built - t_start, t_jobs - t_built, wall))
     shutil.rmtree(rundir, ignore_errors=True)
